@@ -1,5 +1,8 @@
 """C05 — every single operation is atomic under concurrent threads and processes."""
 
+import os
+import threading
+
 from hypothesis import strategies as st
 
 from ..common import HarnessError, Violation, short
@@ -69,6 +72,8 @@ def op_strategy(client, idx):
         st.tuples(st.just('len')),
         st.tuples(st.just('list')),
         st.tuples(st.just('close')),  # closes the caller's connection; the next call reopens it transparently
+        st.tuples(st.just('iterstart')),  # the client begins an iteration, takes one key and keeps the iterator while it goes on
+        st.tuples(st.just('iterend')),  # ... and drains it later (keys are not judged; the calls in between are)
         st.tuples(st.just('expire')),  # removes the expired items (the generated initial state may hold some)
         st.tuples(st.just('open')),  # a further handle is constructed on the directory (and closed again) while the others work
     )
@@ -97,7 +102,7 @@ def program_case(draw, max_clients=4, max_calls=4):
     if draw(st.booleans()):
         init['n'] = draw(st.sampled_from([('i', 10), ('i', 10), ('G', ('i', 10))]))
     schedule = draw(st.lists(st.tuples(st.integers(0, n - 1), st.one_of(st.integers(1, 10), st.sampled_from([14, 20, 30, 50]))), max_size=14))
-    shaped = draw(st.integers(0, 3)) == 0
+    shaped = draw(st.integers(0, 2)) == 0
     if shaped:
         # built on purpose: SQLite hands the rowid of a deleted last row to the next insert, so an operation that looked its
         # row up before taking the lock may hit a different key afterwards
@@ -108,17 +113,17 @@ def program_case(draw, max_clients=4, max_calls=4):
         progs = [[first], second] + progs[2:]
         # ... and the interleaving that matters is built too: client 0 stops after a few of its statements, client 1 runs (most of)
         # its two calls, client 0 goes on
-        schedule = [(0, draw(st.integers(1, 5))), (1, draw(st.sampled_from([3, 5, 6, 7, 12, 13, 14, 20, 30]))), (0, draw(st.integers(1, 8)))] + schedule[:8]
+        schedule = [(0, draw(st.sampled_from([1, 2, 2, 2, 3, 4, 5]))), (1, draw(st.sampled_from([3, 6, 7, 8, 14, 14, 15, 16, 20, 30]))), (0, draw(st.integers(1, 8)))] + schedule[:8]
         init = {k: v for k, v in init.items() if k not in (victim, other)}
         # inserted last: highest rowid; file-backed victims make a lock-free reader go back to the row after its file vanished
-        init[victim] = draw(st.sampled_from([('s', 'init-w'), ('s', 'init-v'), ('B', 253, 100), ('B', 252, 100)]))
+        init[victim] = draw(st.sampled_from([('s', 'init-w'), ('B', 253, 100), ('B', 252, 100)]))
         if draw(st.integers(0, 2)) == 0:
             # the victim has expired: writers look at its row, somebody else's expire()/lazy cull removes it, the rowid is reused
             init[victim] = ('G', init[victim])
             first = draw(st.sampled_from([('add', victim, ('s', 'c0.0')), ('add', victim, ('B', 1, 100)), ('set', victim, ('s', 'c0.0')), ('touch', victim, 1000), ('get', victim), ('pop', victim)]))
             second = [draw(st.sampled_from([('expire',), ('expire',), ('set', victim, ('s', 'c1.0'))])), second[1]]
             progs = [[first], second] + progs[2:]
-    lockfree = shaped and draw(st.booleans())  # the lookups of this configuration take no lock at all
+    lockfree = shaped and draw(st.integers(0, 2)) > 0  # the lookups of this configuration take no lock at all
     return {
         'mode': draw(st.sampled_from(['own', 'own', 'shared'])),
         'statistics': False if lockfree else draw(st.booleans()),
@@ -129,6 +134,7 @@ def program_case(draw, max_clients=4, max_calls=4):
     }
 
 
+_ITERS = {}  # suspended iterators of the clients: (cache object, thread, process) -> iterator
 GHOST = ('G',)  # model value of an item whose time-to-live ran out before the program started
 
 
@@ -188,6 +194,19 @@ def do_op(cache, op):
             return ('ok', cache.close())
         if name == 'expire':
             return ('ok', cache.expire(retry=True))
+        if name in ('iterstart', 'iterend'):
+            slot = (id(cache), threading.get_ident(), os.getpid())
+            it = _ITERS.pop(slot, None)
+            if name == 'iterstart':
+                it = iter(cache)
+                next(it, None)
+                _ITERS[slot] = it
+            elif it is not None:
+                for _ in it:
+                    pass
+            if len(_ITERS) > 64:
+                _ITERS.clear()
+            return ('ok', None)
         if name == 'open':
             shards = getattr(cache, '_count', None)
             extra = type(cache)(cache.directory, timeout=0) if shards is None else type(cache)(cache.directory, shards=shards, timeout=0)
@@ -220,7 +239,7 @@ def model_apply(state, call):
 
     if name == 'setbad':
         return state, res[0] == 'exc'  # rejected: no effect
-    if name in ('close', 'open'):
+    if name in ('close', 'open', 'iterstart', 'iterend'):
         return state, res == ('ok', None)
     if name == 'expire':
         n = sum(1 for v in d.values() if v[0] == GHOST)
